@@ -9,7 +9,7 @@ THEOREMS = [P + t for t in ["C13_provenance", "C13_provenance_multi", "C13_recov
                             "C13_transfer_leaves_clean"]]
 RULE = ("well-formed streams (<= 12 frames) with every single fault (drop, duplicate, swap, truncate to 0-2 bytes, PCI nibble "
         "corrupted to each of 16 values, injected stray CF/FC/empty frame) at every position, sampled double faults, random "
-        "frame soups; each followed by a well-formed transfer (recovery); distinct = distinct frame list; non-trivial = contains a fault or >= 2 frames")
+        "frame soups; each followed by a well-formed transfer (recovery; every 6th one with >= 16 or >= 32 consecutive frames or CAN-FD frames, so that the sequence number wraps); distinct = distinct frame list; non-trivial = contains a fault or >= 2 frames")
 TRUSTED = ["model lean/OdxVerif/Model/IsoTp.lean is hand-written; tied to odxtools/isotp_state_machine.py by event-trace comparison",
            "the provenance reference in harness/isotp_lib.py (reference_explain) is an independent 30-line reassembler"]
 ASSUMPTIONS = ["'never raises' is a theorem only in the sense that the model has no error outcome; for the Python code it is established by the correspondence runs"]
@@ -89,10 +89,26 @@ def run(ctx):
     bases.append([(cid, f) for f in L.segment(bytes(range(12)), 8, b"") + L.segment(bytes(range(50, 59)), 8, b"\x00")])
     rec_p = bytes(range(100, 117))
     rec = (cid, rec_p, L.segment(rec_p, 8, b"\xAA"))
+    # recovery transfers of other lengths: the sequence number of consecutive frames wraps after 15 frames, so "the next
+    # well-formed transfer is reassembled" must also be exercised with transfers of >= 16 and >= 32 consecutive frames
+    # (classic CAN: > 111 / > 223 bytes) and with CAN-FD frames
+    long_recs = []
+    for (n, dl) in [(6 + 7 * 15, 8), (6 + 7 * 16 + 3, 8), (6 + 7 * 33, 8), (62 + 63 * 17, 64), (9, 8)]:
+        q = bytes((x * 13 + n) % 256 for x in range(n))
+        long_recs.append((cid, q, L.segment(q, dl, b"")))
+    calls = [0]
+
+    def pick_rec(cid_):
+        """mostly the short transfer; every 6th call one of the long ones (keeps the run time)"""
+        calls[0] += 1
+        if calls[0] % 6 == 0:
+            c0, q, fs = long_recs[(calls[0] // 6) % len(long_recs)]
+            return (cid_, q, fs)
+        return (cid_, rec_p, rec[2])
     for base in bases:
         singles = list(faults(base, cid))
         for (tag, k), fr in singles:
-            oracle(ctx, [cid], fr, "single-fault", tag.rstrip("0123456789abcdef") if tag.startswith("pci") else tag, pending, rec)
+            oracle(ctx, [cid], fr, "single-fault", tag.rstrip("0123456789abcdef") if tag.startswith("pci") else tag, pending, pick_rec(cid))
         ctx.count("single_fault_streams", len(singles))
         # 2. double faults: exhaustive for short bases in thorough, sampled otherwise
         if len(base) <= (6 if big else 3):
@@ -100,7 +116,7 @@ def run(ctx):
             if not big:
                 doubles = rng.sample(doubles, min(len(doubles), 1500))
             for (t1, t2, fr2) in doubles:
-                oracle(ctx, [cid], fr2, "double-fault", "double", pending, rec)
+                oracle(ctx, [cid], fr2, "double-fault", "double", pending, pick_rec(cid))
             ctx.count("double_fault_streams", len(doubles))
     # 3. random frame soups over 1-3 ids
     for n in range(20000 if big else 1500):
@@ -120,7 +136,7 @@ def run(ctx):
                 frames += [(c, x) for x in fs[:rng.randint(1, len(fs))]]
                 continue
             frames.append((c, f))
-        oracle(ctx, ids, frames, "soup", "soup", pending, (ids[0], rec_p, rec[2]))
+        oracle(ctx, ids, frames, "soup", "soup", pending, pick_rec(ids[0]))
     flush_model(ctx, pending)
 
 
